@@ -59,7 +59,7 @@ def _vc(schema: Schema, fi: FI, v) -> str:
     return c
 
 
-def localise(schema: Schema, mi: MI, tree, fails: Callable[[MI, Any], bool], depth: int = 0) -> str:
+def culprits(schema: Schema, mi: MI, tree, fails: Callable[[MI, Any], bool], depth: int = 0) -> List[str]:
     """Name the smallest part of `tree` that still fails the clause on its own.
 
     Each set top-level field is re-checked alone; for a message-typed culprit the sub-tree is
@@ -99,16 +99,27 @@ def localise(schema: Schema, mi: MI, tree, fails: Callable[[MI, Any], bool], dep
             deeper = None
             for s in subs:
                 if s and fails(sub_mi, s):
-                    deeper = localise(schema, sub_mi, s, fails, depth + 1)
+                    deeper = culprits(schema, sub_mi, s, fails, depth + 1)
                     break
-            if deeper and not deeper.startswith("interaction"):
-                hits.append(deeper)
+            if deeper and not deeper[0].startswith("interaction"):
+                hits.extend(deeper)
                 continue
         hits.append(describe(schema, fi, v))
     if hits:
-        return "&".join(sorted(set(hits)))[:240]
+        return sorted(set(hits))
     kinds = sorted({describe(schema, fi, tree[fi.name]) for fi in mi.fields if fi.name in tree})
-    return ("interaction:" + "&".join(kinds))[:240]
+    return [("interaction:" + "&".join(kinds))[:240]]
+
+
+def localise(schema: Schema, mi: MI, tree, fails: Callable[[MI, Any], bool], depth: int = 0) -> str:
+    return "&".join(culprits(schema, mi, tree, fails, depth))[:240]
+
+
+def failures_for(schema: Schema, mi: MI, tree, clause: str, detail: str, fails, fmt="{clause}|{where}"):
+    """One Failure per culprit field (so a known finding on one field never hides another field)."""
+    from ..engine import Failure
+
+    return [Failure(clause, fmt.format(clause=clause, where=w), detail) for w in culprits(schema, mi, tree, fails)]
 
 
 NONTRIVIAL_MARKS = ("_undef", "=neg", "pos64", "=nan", "=inf", "=empty", "map<", "posbig", "big", "frac")
